@@ -102,12 +102,15 @@ def c17_scan(req):
     from scriptplan.scheduler.scoreboard import Scoreboard
     from scriptplan.utils.time import TimeInterval
     pat, sI, eI, m = req["pat"], req["s"], req["e"], req["m"]
+    so, eo = req.get("so", 0), req.get("eo", 0)         # the window's ends may lie inside slots sI and eI
     n = len(pat)
     G = 3600
     sb = Scoreboard(dt(0), dt((n - 1) * G), G, None)
     for i, c in enumerate(pat):
         sb[i] = c == "1"
-    got = sb.collectIntervals(TimeInterval(dt(sI * G), dt(eI * G)), m * G, lambda v: bool(v))
+    got = sb.collectIntervals(TimeInterval(dt(sI * G + so), dt(eI * G + eo)), m * G, lambda v: bool(v))
+    if any(ts(x.start) % G or ts(x.end) % G for x in got):
+        return {"got": [(ts(x.start), ts(x.end)) for x in got], "want": "slot-aligned runs", "ok": False}
     got = [(ts(x.start) // G, ts(x.end) // G) for x in got]
     eff = pat[: n - 1]                    # the last table slot is the sentinel after `end`
     runs = []
